@@ -84,16 +84,13 @@ fn main() {
                     let conc = 1 + (seed as usize + n) % 3;
                     // full traces for small sizes: the regular property clauses apply
                     if n <= full_upto {
-                        let opts = Opts { abort: false, misuse: false, steps: false, max_states: 1000000, single: true };
+                        let opts = Opts { abort: false, misuse: false, steps: false, max_states: 1000000, single: true, paths: 0, seed };
                         let mut ex = Map::new();
                         ex.insert("fam".into(), json!(format!("big:{}:{}", jb.family, jb.pattern)));
                         let links = Links { pathkey: String::new(), exact: None };
                         let r = explore_ctx(&mut wr, &w0, &EvalCfg::default(), &opts, &ex, &links, &mut stats);
                         if let Some(e) = r.ends.iter().find(|e| e.clean) {
-                            let mut w1 = w0.clone();
-                            w1.hist = e.hist1.clone();
-                            w1.files = e.files1.clone();
-                            w1.evalno = 2;
+                            let w1 = ppg2verif::chain::world_after(&w0, e);
                             let mut ex2 = ex.clone();
                             ex2.insert("prev".into(), json!(e.line));
                             ex2.insert("edit".into(), json!("none"));
